@@ -824,6 +824,13 @@ def run(repo, check):
     from sa.rules.common import share as _sh
     _sh(check, repo, _c07.rule_r3, 'C01.R11', 'values introduced by marker operators are decoded with the coding of the element the bitmap designates (225255: width + 1, '
         'reference -2**width), freshly derived for every message (shared with C07.R3)', args=(check.tier,))
+    from sa.rules import c06 as _c06, c05 as _c05
+    _sh(check, repo, _c06.rule_r1, 'C01.R12', 'operators in force (201, 202, 203, 204, 206, 207, 208, 221) end with the subset: every subset of an uncompressed message '
+        'starts from the Table B coding (shared with C06.R1)', args=('C01.R12',),
+        keep=lambda f: any(k in f.key for k in ('nbits_offset', 'scale_offset', 'new_refval', 'nbits_of_associated', 'skipped_local', 'bsr_modifier', 'new_nbytes',
+                                                'data_not_present')))
+    _sh(check, repo, _c05.rule_state_mode, 'C01.R13', 'the data section is read in the mode the header declares, whatever the number of subsets (shared with C05.R8)',
+        args=('C01.R13',), keep=lambda f: 'Decoder' in f.key or 'CoderState' in f.key or 'decoder' in str(f.where))
     check.assumptions = ['bitstring reads the requested number of bits MSB first (trusted base)',
                          'Table B contents (width, scale, reference of each element) are data, not decided here',
                          'the frozen operator table (DESIGN appendix A.3) restates FM-94 regulation 94.5.3 / Table C']
